@@ -355,6 +355,42 @@ func (c *fsClient) exitChecks(x *Exec, st *State, entry string, fn *ssa.Function
 			// nil without commit is only allowed for the empty transaction; tracked by events
 		}
 	}
+	// EXPIRY-APPLIED: an operation that is handed a log expiry policy (non-nil on
+	// this path) and a non-empty stack reports success only after it has
+	// published a rewritten table: the policy of *this* call is what was applied
+	for _, pa := range fn.Params {
+		pt, ok := pa.Type().(*types.Pointer)
+		if !ok {
+			continue
+		}
+		if n, ok := pt.Elem().(*types.Named); !ok || n.Obj().Name() != "LogExpirationConfig" {
+			continue
+		}
+		if errv == nil || st.truth(tEq(errv, tNil)) != 1 {
+			continue
+		}
+		exp := mk("param", funcKey(fn)+"."+pa.Name(), pa.Type())
+		root := g.flag("stackRoot")
+		if root == nil || st.truth(tEq(exp, tNil)) != 0 {
+			continue
+		}
+		init0 := mk("init", "", nil, mk("field", "Stack.stack", nil, root))
+		nonEmpty := st.truth(tLt(tConst("0", nil), mk("len", "", types.Typ[types.Int], init0)))
+		if nonEmpty == 0 {
+			continue
+		}
+		key := entry + " / an expiring compaction of a non-empty stack rewrites it"
+		if g.isSet("lockAttempt") && !g.isSet("listRenamed") {
+			// gave up under the lock protocol (lock busy, stale handle): the
+			// multi-handle outcome "nothing done, no error" is not this rule's subject
+			continue
+		}
+		if g.isSet("listRenamed") {
+			c.okay("EXPIRY-APPLIED", key, "success with a non-nil expiry policy => the list was replaced on this path")
+		} else {
+			c.violate(st, "EXPIRY-APPLIED", key, pos, "the operation is given a log expiry policy and a stack that is not known to be empty, and reports success on a path that neither rewrote the tables nor contended for a lock: entries the policy expires survive (for instance when an earlier call's result is taken to cover this one)")
+		}
+	}
 	// READER-OWN
 	cur := c.currentStack(st)
 	if cur != nil {
